@@ -260,3 +260,15 @@ func R(p unsafe.Pointer, site string)  { hbRead(p, site, 0) }
 func W(p unsafe.Pointer, site string)  { hbWrite(p, site, 0) }
 func MR(p unsafe.Pointer, site string) { hbRead(p, site, 1) }
 func MW(p unsafe.Pointer, site string) { hbWrite(p, site, 1) }
+
+// SR / SW: the elements of a tracked slice; the location is its backing array (nil for an empty, unallocated slice).
+func SR(p unsafe.Pointer, site string) {
+	if p != nil {
+		hbRead(p, site, 2)
+	}
+}
+func SW(p unsafe.Pointer, site string) {
+	if p != nil {
+		hbWrite(p, site, 2)
+	}
+}
